@@ -71,16 +71,19 @@ func cmdNetIndexPool(args []string) error {
 	rnd := rand.New(rand.NewSource(seed()))
 	wc := findCollisions("", "", 5, "abcdefghijklmnopqrstuvwxyz0123456789-_.", 2, rnd)
 	dc := findCollisions("", ".com", 9, "abcdefghijklmnopqrstuvwxyz0123456789", 1, rnd)
-	if len(wc) < 2 || len(dc) < 1 {
+	// two different rule TEXTS with equal hash that both land in the sequential table (4-character shortcuts)
+	tc := findCollisions("", "*", 4, "abcdefghijklmnopqrstuvwxyz0123456789-_.", 1, rnd)
+	if len(wc) < 2 || len(dc) < 1 || len(tc) < 1 {
 		return fmt.Errorf("no djb2 collisions found")
 	}
+	T1, T2 := strings.TrimSuffix(tc[0][0], "*"), strings.TrimSuffix(tc[0][1], "*")
 	X, Y := wc[0][0], wc[0][1]
 	X2, Y2 := wc[1][0], wc[1][1]
 	D1, D2 := dc[0][0], dc[0][1]
 	type spec struct{ pat, dom string }
 	var specs []spec
-	shortcuts := []string{X, Y, X + "q", "r" + Y, "zzzzzz", "zzzzz", X2 + Y2, "ab", "https:", ""}
-	doms := []string{"", D1, D2, "sub." + D1, strings.TrimSuffix(D1, ".com") + ".*", D1 + "|" + D2}
+	shortcuts := []string{X, Y, X + "q", "r" + Y, "zzzzzz", "zzzzz", X2 + Y2, "ab", "https:", "", T1, T2}
+	doms := []string{"", D1, D2, "sub." + D1, strings.TrimSuffix(D1, ".com") + ".*", D1 + "|" + D2, "com"}
 	for _, s := range shortcuts {
 		for _, d := range doms {
 			if s == "" && d == "" {
@@ -89,7 +92,7 @@ func cmdNetIndexPool(args []string) error {
 			specs = append(specs, spec{s, d})
 		}
 	}
-	pool := niPool{Note: fmt.Sprintf("colliding windows %s/%s and %s/%s, colliding domains %s/%s", X, Y, X2, Y2, D1, D2)}
+	pool := niPool{Note: fmt.Sprintf("colliding windows %s/%s and %s/%s, colliding domains %s/%s, colliding rule texts %s*/%s*", X, Y, X2, Y2, D1, D2, T1, T2)}
 	hashes := map[string]bool{}
 	addHash := func(s string) {
 		if !hashes[s] {
@@ -128,7 +131,7 @@ func cmdNetIndexPool(args []string) error {
 	base := strings.TrimSuffix(D1, ".com")
 	srcs := []string{"", D1, D2, "sub." + D1, "x.sub." + D1, base + ".org", "not" + D1, "other.net"}
 	var urls []string
-	for _, s := range []string{X, Y, X + "q", "r" + Y, "zzzzzz", "zzzzz", X2 + Y2, "ab"} {
+	for _, s := range []string{X, Y, X + "q", "r" + Y, "zzzzzz", "zzzzz", X2 + Y2, "ab", T1, T2} {
 		urls = append(urls, "http://h.test/"+s, "http://h.test/p"+s+"/t", "HTTP://H.TEST/"+strings.ToUpper(s), "http://h.test/"+s[:len(s)-1])
 	}
 	urls = append(urls, "http://h.test/", "https://h.test/"+Y2+X2, "http://h.test/zzzz")
